@@ -1,5 +1,6 @@
 import RaftVerif.Proofs.SimInv
 import RaftVerif.Proofs.NextSolo
+import RaftVerif.Proofs.SimTerm
 /-!
 # Proofs/SimHb — heartbeats: MsgHeartbeat / MsgHeartbeatResp of the node's own term, a leader's tick
 
@@ -106,7 +107,7 @@ theorem HbFrame.of_sf {r r' : Raft} (hsf : SendFrame r r') (hpk : PrKeep r r')
 
 theorem RaftStatic.of_hbFrame {voters : List Id} {n : Nat} {r r' : Raft} (h : RaftStatic voters n r)
     (f : HbFrame r r') : RaftStatic voters n r' :=
-  ⟨by rw [f.cfg]; exact h.id, h.idnz, by rw [f.cfg]; exact h.pv, by rw [f.cfg]; exact h.cq, f.xfer.trans h.xfer,
+  ⟨by rw [f.cfg]; exact h.id, h.idnz, by rw [f.cfg]; exact h.pv, f.xfer.trans h.xfer,
     f.pri.trans h.pri, f.ro.trans h.ro, by rw [f.tcfg]; exact h.tvoters, by rw [f.tcfg]; exact h.tout,
     by rw [f.tcfg]; exact h.tauto, fun v => by rw [f.prm.isSome]; exact h.prog v,
     fun v pr hp => by
@@ -206,7 +207,7 @@ theorem hb_static_reset {voters : List Id} {n : Nat} {r : Raft} (h : RaftStatic 
     RaftStatic voters n { Next.resetSt r t d rest with lead := l, state := .follower } := by
   have hg : ∀ v, ({ Next.resetSt r t d rest with lead := l, state := .follower } : Raft).trk.getProgress v =
       (Next.resetSt r t d rest).trk.getProgress v := fun _ => rfl
-  refine ⟨h.id, h.idnz, h.pv, h.cq, rfl, h.pri, rfl, h.tvoters, h.tout, h.tauto, ?_, ?_, h.self⟩
+  refine ⟨h.id, h.idnz, h.pv, rfl, h.pri, rfl, h.tvoters, h.tout, h.tauto, ?_, ?_, h.self⟩
   · intro v
     rw [hg, hb_getProgress_reset, Option.isSome_map]
     exact h.prog v
@@ -539,12 +540,15 @@ theorem tick_leader_run (r : Raft) (hs : r.state = .leader) : Raft.tick.run r = 
   unfold Raft.tick
   simp [StateT.run_bind, StateT.run_get, P_pure_eq, P_ok_bind, hs]
 
-/-- **`tickHeartbeat` of a leader without CheckQuorum and without a leadership transfer**: the timers advance
-(`ra`), then possibly a `MsgBeat` is stepped -/
-theorem tickHeartbeat_leader_inv (r r' : Raft) (hs : r.state = .leader) (hcq : r.cfg.checkQuorum = false)
+/-- **`tickHeartbeat` of a leader without a leadership transfer**: the timers advance (`ra`); with CheckQuorum, when
+the election timeout has elapsed, either the leader steps down (`becomeFollower` of the same term; then every peer is
+marked inactive) or every peer is marked inactive (`rb = clearRA ra`); a leader then possibly steps a `MsgBeat` -/
+theorem tickHeartbeat_leader_inv (r r' : Raft) (hs : r.state = .leader)
     (hx : r.leadTransferee = 0) (h : Raft.tickHeartbeat.run r = .ok ((), r')) :
     ∃ ra, (∃ he ee, ra = { r with heartbeatElapsed := he, electionElapsed := ee }) ∧
-      (r' = ra ∨ ∃ res, (Raft.stepLeader 2 { «from» := ra.cfg.id, typ := .beat }).run ra = .ok (res, r')) := by
+      ((∃ rb, (rb = ra ∨ rb = clearRA ra) ∧
+        (r' = rb ∨ ∃ res, (Raft.stepLeader 2 { «from» := rb.cfg.id, typ := .beat }).run rb = .ok (res, r'))) ∨
+       (∃ r1, (Raft.becomeFollower ra.term 0).run ra = .ok ((), r1) ∧ r' = clearRA r1)) := by
   unfold Raft.tickHeartbeat at h
   obtain ⟨u0, r0, h0, hA⟩ := bind_ok h
   have e := modify_ok h0; subst r0
@@ -586,13 +590,45 @@ theorem tickHeartbeat_leader_inv (r r' : Raft) (hs : r.state = .leader) (hcq : r
   · obtain ⟨u2, r2, h2, hC⟩ := bind_ok hB
     have e := modify_ok h2; subst r2
     split at hC
-    · rename_i hcq'; simp [hcq] at hcq'
+    · obtain ⟨y, r3, h3, hD⟩ := bind_ok hC
+      have h3' := (step_leader_dispatch 2 { «from» := r.cfg.id, typ := .checkQuorum }
+        { r with heartbeatElapsed := r.heartbeatElapsed + 1, electionElapsed := 0 }
+        hs (Or.inl rfl) (Or.inl rfl)).symm.trans h3
+      rw [stepLeader_checkQuorum_run _ _ _ rfl] at h3'
+      split at h3'
+      · injection h3' with h3'; injection h3' with _ h3'; subst h3'
+        rcases hMidL () _ (by exact hs) (by exact hx) hD with h | ⟨res, h⟩
+        · exact ⟨{ r with heartbeatElapsed := r.heartbeatElapsed + 1, electionElapsed := 0 }, ⟨_, _, rfl⟩,
+            Or.inl ⟨_, Or.inr rfl, Or.inl h⟩⟩
+        · exact ⟨{ r with heartbeatElapsed := 0, electionElapsed := 0 }, ⟨_, _, rfl⟩,
+            Or.inl ⟨_, Or.inr rfl, Or.inr ⟨res, h⟩⟩⟩
+      · cases hb : (Raft.becomeFollower r.term 0).run
+            { r with heartbeatElapsed := r.heartbeatElapsed + 1, electionElapsed := 0 } with
+        | error e => rw [hb] at h3'; cases h3'
+        | ok p =>
+          rw [hb] at h3'
+          obtain ⟨u, r1⟩ := p
+          injection h3' with h3'; injection h3' with _ h3'; subst h3'
+          have hf : r1.state = .follower := ((becomeFollower_live r.term 0 _).elim hb).2.2.2.1
+          refine ⟨{ r with heartbeatElapsed := r.heartbeatElapsed + 1, electionElapsed := 0 }, ⟨_, _, rfl⟩,
+            Or.inr ⟨r1, hb, ?_⟩⟩
+          simp only [jMid] at hD
+          obtain ⟨r0, r5, h5, hG⟩ := bind_ok hD
+          obtain ⟨e0, e1⟩ := get_ok h5; subst r0 r5
+          have hcs : (clearRA r1).state = .follower := hf
+          rw [if_neg (by simp [hcs])] at hG
+          simp only [jTail] at hG
+          obtain ⟨r0, r6, h6, hH⟩ := bind_ok hG
+          obtain ⟨e0, e1⟩ := get_ok h6; subst r0 r6
+          rw [if_pos (by simp [hcs])] at hH
+          obtain ⟨_, e⟩ := pure_ok hH
+          exact e
     · rcases hMidL () _ (by exact hs) (by exact hx) hC with h | ⟨res, h⟩
-      · exact ⟨_, ⟨_, _, rfl⟩, Or.inl h⟩
-      · exact ⟨_, ⟨_, _, rfl⟩, Or.inr ⟨res, h⟩⟩
+      · exact ⟨_, ⟨_, _, rfl⟩, Or.inl ⟨_, Or.inl rfl, Or.inl h⟩⟩
+      · exact ⟨_, ⟨_, _, rfl⟩, Or.inl ⟨_, Or.inl rfl, Or.inr ⟨res, h⟩⟩⟩
   · rcases hTailL () _ (by exact hs) hB with h | ⟨res, h⟩
-    · exact ⟨_, ⟨_, _, rfl⟩, Or.inl h⟩
-    · exact ⟨_, ⟨_, _, rfl⟩, Or.inr ⟨res, h⟩⟩
+    · exact ⟨_, ⟨_, _, rfl⟩, Or.inl ⟨_, Or.inl rfl, Or.inl h⟩⟩
+    · exact ⟨_, ⟨_, _, rfl⟩, Or.inl ⟨_, Or.inl rfl, Or.inr ⟨res, h⟩⟩⟩
 
 theorem stepLeader_beat_bcast (fuel : Nat) (m : Message) (r r' : Raft) (res : Option StepErr)
     (hm : m.typ = .beat) (h : (Raft.stepLeader fuel m).run r = .ok (res, r')) :
@@ -603,6 +639,56 @@ theorem stepLeader_beat_bcast (fuel : Nat) (m : Message) (r r' : Raft) (res : Op
   obtain ⟨_, e⟩ := pure_ok hA; subst e
   exact ⟨u1, h1⟩
 
+/-- marking the peers inactive (`recentActive`) is invisible to the invariant -/
+theorem RaftInv.clearRA {val : Val} {voters : List Id} {n : Nat} {r : Raft} {nd : Spec.Node}
+    {msgs : List Spec.Msg} (hinv : RaftInv val voters n r nd msgs) :
+    RaftInv val voters n (clearRA r) nd msgs := by
+  have hg := getProgress_clearRA r
+  have hm : ∀ v pr, (Live.clearRA r).trk.getProgress v = some pr →
+      ∃ pr0, r.trk.getProgress v = some pr0 ∧ pr.match_ = pr0.match_ ∧ pr.isLearner = pr0.isLearner := by
+    intro v pr hp
+    rw [hg] at hp
+    cases hq : r.trk.getProgress v with
+    | none => rw [hq] at hp; cases hp
+    | some pr0 =>
+      rw [hq] at hp
+      injection hp with hp
+      subst hp
+      refine ⟨pr0, rfl, ?_, ?_⟩ <;> split <;> rfl
+  exact {
+    abs := hinv.abs.congr rfl rfl rfl rfl
+    st := {
+      id := hinv.st.id, idnz := hinv.st.idnz, pv := hinv.st.pv, xfer := hinv.st.xfer
+      pri := hinv.st.pri, ro := hinv.st.ro, tvoters := hinv.st.tvoters, tout := hinv.st.tout
+      tauto := hinv.st.tauto
+      prog := fun v => by rw [hg, Option.isSome_map]; exact hinv.st.prog v
+      nolearn := fun v pr hpr => by
+        obtain ⟨pr0, h0, _, h2⟩ := hm v pr hpr
+        rw [h2]; exact hinv.st.nolearn v pr0 h0
+      self := hinv.st.self }
+    wf := hinv.wf
+    unc := hinv.unc
+    leadInv := hinv.leadInv
+    candVote := hinv.candVote
+    termPos := hinv.termPos
+    logLe := hinv.logLe
+    candLt := hinv.candLt
+    pend := hinv.pend
+    durV := hinv.durV
+    durA := hinv.durA
+    out := hinv.out
+    prom := hinv.prom
+    rvTerm := hinv.rvTerm
+    rvCov := hinv.rvCov
+    votes := hinv.votes
+    selfVote := hinv.selfVote
+    matchO := fun hl v pr c hv hp h0 hc => by
+      obtain ⟨pr0, h1, h2, _⟩ := hm v pr hp
+      exact hinv.matchO hl v pr0 c hv h1 h0 (h2 ▸ hc)
+    matchS := fun hl pr c hp hc ht => by
+      obtain ⟨pr0, h1, h2, _⟩ := hm n pr hp
+      exact hinv.matchS hl pr0 c h1 (h2 ▸ hc) ht }
+
 /-- **tick of a leader** (`tickHeartbeat`): the timers advance; when the heartbeat timeout fires, one Spec
 `sendHb` per peer -/
 theorem sim_tick_leader {val : Val} {voters : List Id} {n : Nat} {s : Spec.State} {r r' : Raft}
@@ -610,12 +696,19 @@ theorem sim_tick_leader {val : Val} {voters : List Id} {n : Nat} {s : Spec.State
     (hs : r.state = .leader) (h : Raft.tick.run r = .ok ((), r')) : RaftSim val voters n s r' := by
   have _ := hreach
   rw [tick_leader_run r hs] at h
-  obtain ⟨ra, ⟨he, ee, rfl⟩, hcase⟩ := tickHeartbeat_leader_inv r r' hs hinv.st.cq hinv.st.xfer h
+  obtain ⟨ra, ⟨he, ee, rfl⟩, hcase⟩ := tickHeartbeat_leader_inv r r' hs hinv.st.xfer h
   have hra : RaftInv val voters n { r with heartbeatElapsed := he, electionElapsed := ee } (s.nodes n) s.msgs :=
     hinv.congr rfl rfl rfl rfl rfl rfl rfl rfl rfl rfl rfl rfl
-  rcases hcase with rfl | ⟨res, hb⟩
-  · exact RaftSim.refl hra
-  · obtain ⟨u, hu⟩ := stepLeader_beat_bcast _ _ _ _ _ rfl hb
-    exact (sim_bcastHeartbeat hra hs).elim hu
+  rcases hcase with ⟨rb, hrb, hcase⟩ | ⟨r1, hbf, rfl⟩
+  · have hrb' : RaftInv val voters n rb (s.nodes n) s.msgs ∧ rb.state = .leader := by
+      rcases hrb with rfl | rfl
+      · exact ⟨hra, hs⟩
+      · exact ⟨hra.clearRA, hs⟩
+    rcases hcase with rfl | ⟨res, hb⟩
+    · exact RaftSim.refl hrb'.1
+    · obtain ⟨u, hu⟩ := stepLeader_beat_bcast _ _ _ _ _ rfl hb
+      exact (sim_bcastHeartbeat hrb'.1 hrb'.2).elim hu
+  · obtain ⟨s1, hrun, _, _, hinv1, _⟩ := sim_stepDown hra hbf
+    exact RaftSim.trans hrun (by simp [Spec.Action.actor]) (RaftSim.refl hinv1.clearRA)
 
 end RaftVerif.Sim
